@@ -218,6 +218,47 @@ def _run_all(data, damages, verify, br_every, per_script, on_result, on_fault):
         pending = nxt
 
 
+def check_undamaged(rep, tier, rng):
+    """Clause "an undamaged file never reports a checksum error": a broad family of written files (every
+    physical type x REQUIRED/OPTIONAL x many write histories with several batches per page x all codecs),
+    read with verification ON in all three modes; an error that disappears with verification off (or a
+    difference between the two dumps) is a violation."""
+    n = 60 if tier == "quick" else 600
+    cases = []
+    for i in range(n):
+        kw = {}
+        if i % 3 == 0:        # single-column tables of each type, several batches into one page
+            t = fc.TYPES[(i // 3) % len(fc.TYPES)]
+            kw = dict(max_cols=1, types=[t], max_rows=60)
+        case = fc.gen_case(rng, codecs=[fc.ALL_CODECS[i % len(fc.ALL_CODECS)]], long_strings=False, **({"max_cols": 3, "max_rows": 80} | kw))
+        case.name = "c14ok%d" % i
+        if i % 2 == 0:
+            case.options.page_size = 1 << 20      # every batch of a row group lands in ONE page
+        cases.append(case)
+    bad = 0
+    for case in cases:
+        p = fc.tmppath()
+        st = fc.write_case(case, p)
+        if not (st.close_ok() and st.all_ok()):
+            if os.path.exists(p):
+                os.unlink(p)
+            continue
+        data = Path(p).read_bytes()
+        os.unlink(p)
+        for m in MODES:
+            rep.count(("undamaged", case.name, m))
+            dv = fc.dump(data, m, True, BIG)
+            if dv.fault or not dv.opened or dv.read_errors():
+                d0 = fc.dump(data, m, False, BIG)
+                if not (d0.fault or not d0.opened or d0.read_errors()):
+                    bad += 1
+                    if bad <= 4:
+                        rep.violation(f"undamaged file reports an error only with verify_checksums=1 in mode {m}: "
+                                      f"{dv.error or dv.read_errors() or dv.fault}",
+                                      {"file_case": fc.case_to_json(case), "mode": m, "damage": None})
+    rep.cov.setdefault("file_level_undamaged", {})["files"] = len(cases)
+
+
 def check_files(rep, tier, rng):
     """Entry point used by checks/C14.py (see module docstring)."""
     try:
@@ -225,6 +266,7 @@ def check_files(rep, tier, rng):
     except vlib.BuildError as e:
         rep.tie_broken("harness h_file does not build against the current tree: " + str(e)[:400])
         return
+    check_undamaged(rep, tier, rng)
     files = _gen_files(tier, rng)
     if len(files) < (4 if tier == "quick" else 20):
         rep.tie_broken(f"file-level C14: only {len(files)} usable carquet-written files could be produced")
